@@ -110,6 +110,12 @@ CHECKS["C16"] = (
     "Generator scratch state is read from the harness; re-export strings (R) are exempt from history independence by design; duplicate identical entries in generate_stub_data's list are tolerated.",
     "6/C16",
 )
+CHECKS["C18"] = (
+    "bounded-exhaustive enumeration of (package, mutated package) run pairs through the real pipeline with a metamorphic (byte-identity / permutation) oracle",
+    "Base units: every 7th (quick) / 2nd (thorough) C03 tree and C11 user/target trees (11 placements quick, all 28 thorough). 8 unrelated additions per unit - a package with fresh names; with the unit's own declaration names; with the same module file name; re-exporting equally named declarations by name / alias / star; a package named like a declaration; a class named like the referenced class - each applied to all units of a packed package at once, so interference inside a unit and across units is observed: all stub files below the unit's root must be byte-identical to the base run. Reversing the top-level declarations of a tree module must leave header and imports identical and only permute the declaration texts.",
+    "'Unrelated' is decided from the construction (not imported, defines nothing referenced - equal names are different declarations - and not re-exported on the module's path).",
+    "6/C18",
+)
 NOT_YET = {}  # id -> reason (filled for properties without a check)
 
 props = [json.loads(l) for l in open(V / "properties.jsonl")]
